@@ -97,7 +97,12 @@ impl SessionTracker {
 
     /// Record a successful decompression
     pub fn record_decompression(&self, bytes: u64) {
-        self.total_decompressed.fetch_add(bytes, Ordering::Relaxed);
+        // saturate like every check does: the total never decreases
+        let _ = self
+            .total_decompressed
+            .fetch_update(Ordering::Relaxed, Ordering::Relaxed, |t| {
+                Some(t.saturating_add(bytes))
+            });
         self.files_decompressed.fetch_add(1, Ordering::Relaxed);
     }
 
